@@ -140,7 +140,7 @@ def analyse(prog, f, c, what):
             a = f.await_of_start(c.bb)
             if a is not None and core.await_may_suspend(prog, a):
                 res['sink_suspends'].append(c)
-    for y in f.yields:
+    for y in sorted(core.real_yields(prog, f)):
         if y in reach and y not in sinks:
             # yields of the sink's own await come after the hand-over (START is the sink block) - excluded by avoid_exit
             res['cancel'].append((y, f.path([start], [y], avoid_exit=sinks, avoid_enter=none_edges)))
